@@ -2,7 +2,14 @@
 //! calls the public API of the crates built from /repo's working tree (real proc-macro, real stavec).
 //! Harness shape: assume(precondition); call the real function; assert(postcondition vs. reference).
 #![allow(dead_code, unused_imports, clippy::all)]
+#![cfg_attr(kani, feature(layout_for_ptr))]
 
 pub mod reference;
+pub mod corpus;
+pub mod util;
 #[cfg(kani)]
 mod c16_portable;
+#[cfg(kani)]
+mod c01_validate;
+#[cfg(kani)]
+mod c04_layout;
